@@ -39,14 +39,10 @@ Definition ex_store : store := {| trees := [[ex_tree; ex_tree]; [placeholder]]; 
 Example ex_offered_nonempty : forallb (fun lang => negb (Nat.ltb (length (offered_for lang)) 1)) [l_en; l_ja] = true.
 Proof. vm_compute. reflexivity. Qed.
 
-(* the sequence theorem instantiated and computed on a concrete history (jigg_xml first: the historically harmful order) *)
+(* the sequence theorem instantiated and computed on a concrete history: every offered format, then all again in reverse order *)
 Example ex_history :
-  match find_spec l_en [106;105;103;103;95;120;109;108], find_spec l_en [97;117;116;111], find_spec l_en [112;114;111;108;111;103] with
-  | Some fj, Some fa, Some fp =>
-      store_eqb (snd (run_seq [fj; fa; fp; fj; fa] ex_store)) ex_store = true
-      /\ fst (run_seq [fj; fa; fp; fj; fa] ex_store) = map (fun f => fst (render f ex_store)) [fj; fa; fp; fj; fa]
-  | _, _, _ => False
-  end.
+  let fs := offered_formats ++ rev offered_formats in
+  store_eqb (snd (run_seq fs ex_store)) ex_store = true /\ fst (run_seq fs ex_store) = map (fun f => fst (render f ex_store)) fs.
 Proof. vm_compute. split; reflexivity. Qed.
 
 (* the mutation semantics is not idle: the renaming that jigg_xml once did in the caller's tokens (word->surf, lemma->base)
